@@ -42,11 +42,30 @@ Fixpoint unwrap1 (j : json) : json :=
   | _ => j
   end.
 
+(** Update messages are not compared as texts either: which old item of a keyed list a new one is matched with,
+    when several share a key, and hence the index list and the sub-deltas of a "$" delta, is a freedom of diff.go
+    that the property does not fix.  What it fixes is what the client holds after applying them: [same_states]
+    below folds the update messages of one rerunner as the model predicts them and as they were observed with
+    the model of merge.ts, and compares the client's state after every message. *)
 Definition msg_matches (t : etype) (m : json) (o : json) : bool :=
   match t with
   | EError => Bool.eqb (is_internal m) (is_internal o)
+  | EUpdate => true
   | _ => json_eqb (unwrap1 (norm m)) (unwrap1 o)
   end.
+
+Fixpoint same_states (st1 st2 : json) (d1 d2 : list json) : bool :=
+  match d1, d2 with
+  | [], [] => true
+  | a :: t1, b :: t2 =>
+      let s1 := merge_js a st1 in
+      let s2 := merge_js b st2 in
+      json_eqb (norm s1) (norm s2) && same_states s1 s2 t1 t2
+  | _, _ => false
+  end.
+
+Definition obs_updates_of (rid : nat) (l : list obs_env) : list json :=
+  map o_msg (filter (fun o => Nat.eqb (o_type o) 0 && opt_nat_eqb (o_src o) (Some rid)) l).
 
 Definition env_matches (e : envelope) (o : obs_env) : bool :=
   Nat.eqb (e_id e) (o_id o) && Nat.eqb (etype_code (e_type e)) (o_type o)
@@ -129,7 +148,7 @@ Definition same_set (l1 l2 : list nat) : bool :=
   Nat.eqb (List.length l1) (List.length l2)
   && forallb (fun x => existsb (Nat.eqb x) l2) l1 && forallb (fun x => existsb (Nat.eqb x) l1) l2.
 
-(** Component codes: 1 a label is not enabled in the model; 2 `Previous` or `initial` (as told to StartExecution / the middlewares) differs; 3 envelopes differ;
+(** Component codes: 1 a label is not enabled in the model; 2 `Previous` or `initial` (as told to StartExecution / the middlewares) differs; 3 envelopes differ (id, type, source, message; for update messages: the client's state after each of them);
     4 logger calls differ (per id); 5 merge.ts client state differs from the model's fold;
     6 pending close tasks or pending reply left at the end / live ids differ;
     7 the resources released (Cleanup calls) differ from the model's;
@@ -149,7 +168,10 @@ Definition check_case (c : case) : list nat :=
   | RPrev _ => [2]
   | RQuery _ => [8]
   | RDone s rs =>
-      (if all2 env_matches (out_of s) (k_out c) then [] else [3]) ++
+      (if all2 env_matches (out_of s) (k_out c)
+          && forallb (fun rid => same_states JNull JNull (map e_msg (updates_of rid s)) (obs_updates_of rid (k_out c)))
+                     (seq 0 (st_next s))
+       then [] else [3]) ++
       (if forallb (fun id => all2 logev_eqb (log_for id (log_of s)) (log_for id (k_log c))) (k_ids c)
           && Nat.eqb (List.length (st_log s)) (List.length (k_log c)) then [] else [4]) ++
       (if forallb (fun p => json_eqb (norm (client_state (fst p) s)) (snd p)) (k_clients c) then [] else [5]) ++
